@@ -515,6 +515,7 @@ func c14ClientDecoders(c *Ctx) {
 			}
 			var dec *ssa.Call
 			var errTest *ssa.Call
+			viaHelper := false
 			ir.EachInstr(m, func(_ *ssa.BasicBlock, _ int, in ssa.Instruction) {
 				if call, ok := in.(*ssa.Call); ok {
 					if sc := ir.StaticCallee(call); sc != nil && c.P.IsLib(sc) {
@@ -528,6 +529,68 @@ func c14ClientDecoders(c *Ctx) {
 				}
 			})
 			if dec == nil {
+				// the decoder may be handed, as a function value, to a helper that tests for an error answer and then
+				// calls it (decodeAnswer(raw, label, parseX)): judged inside the helper, named after the decoder
+				ir.EachInstr(m, func(_ *ssa.BasicBlock, _ int, in ssa.Instruction) {
+					call, ok := in.(*ssa.Call)
+					if !ok || dec != nil {
+						return
+					}
+					sc := ir.StaticCallee(call)
+					if sc == nil || !c.P.IsLib(sc) {
+						return
+					}
+					for ai, a := range call.Call.Args {
+						d := funcValue(a)
+						if d == nil || ai >= len(sc.Params) {
+							continue
+						}
+						// a thin wrapper around a decoder (parseInitializeAnswer) counts as the decoder it wraps
+						inner := d
+						ir.EachCall(d, func(ic ssa.CallInstruction) {
+							if isc := ir.StaticCallee(ic); isc != nil && c.P.IsLib(isc) && isDecoder(isc) {
+								inner = isc
+							}
+						})
+						if !isDecoder(d) && inner == d {
+							continue
+						}
+						// inside the helper: the call of the parameter sits on the not-an-error edge of the error test
+						var pcall, ptest *ssa.Call
+						ir.EachInstr(sc, func(_ *ssa.BasicBlock, _ int, hin ssa.Instruction) {
+							hc, ok := hin.(*ssa.Call)
+							if !ok {
+								return
+							}
+							if hc.Call.Value == ssa.Value(sc.Params[ai]) {
+								pcall = hc
+							}
+							if isc := ir.StaticCallee(hc); isc != nil && c.P.IsLib(isc) && isErrTest(isc) {
+								ptest = hc
+							}
+						})
+						if pcall == nil {
+							continue
+						}
+						tn := ir.TypeKey(T)
+						per[tn] = fname(inner)
+						order = append(order, tn)
+						guarded := false
+						if ptest != nil {
+							for _, g := range flow.Guards(sc, pcall.Block()) {
+								if g.If.Cond == ssa.Value(ptest) && !g.Branch {
+									guarded = true
+								}
+							}
+						}
+						c.R.Check(guarded, "R-client-decoders", tn+"."+mname+": error test first", c.Pos(call.Pos()), "the answer is decoded only on the not-an-error edge",
+							sprintf("%s.%s decodes the answer (through %s) without first testing it for a JSON-RPC error", tn, mname, fname(sc)))
+						dec = call
+						viaHelper = true
+					}
+				})
+			}
+			if dec == nil || viaHelper {
 				continue
 			}
 			tn := ir.TypeKey(T)
